@@ -271,12 +271,12 @@ Proof.
 Qed.
 
 (* ================================================================== rounds: the recorded tokens were CONSUMED *)
-(* [from S m]: every (port, token) stored in the inputs_map satisfies S; with S = "was a head of some round at that
+(* [from Q m]: every (port, token) stored in the inputs_map satisfies Q; with Q = "was a head of some round at that
    port" this says a group only ever holds tokens the step read, at the port it read them from *)
-Definition from (S : nat * tok -> Prop) (m : imap) : Prop :=
-  forall g inner, In (g, inner) m -> forall p, In p inner -> S p.
+Definition from (Q : nat * tok -> Prop) (m : imap) : Prop :=
+  forall g inner, In (g, inner) m -> forall p, In p inner -> Q p.
 
-Lemma group_one_from S i t m : from S m -> S (i, t) -> from S (group_one i t m).
+Lemma group_one_from Q i t m : from Q m -> Q (i, t) -> from Q (group_one i t m).
 Proof.
   intros Hm Hs g inner H p Hp. destruct (group_one_in i t m g inner H) as [H'|[_ [Hi|[old [Ho Hi]]]]].
   - eapply Hm; eauto.
@@ -284,20 +284,20 @@ Proof.
   - subst. destruct (set_inner_in i t old p Hp) as [->|Hq]; [exact Hs|eapply Hm; eauto].
 Qed.
 
-Lemma group_by_tag_from S : forall heads i m, from S m ->
-  (forall j t, nth_error heads j = Some t -> S (i + j, t)) -> from S (group_by_tag i heads m).
+Lemma group_by_tag_from Q : forall heads i m, from Q m ->
+  (forall j t, nth_error heads j = Some t -> Q (i + j, t)) -> from Q (group_by_tag i heads m).
 Proof.
   induction heads as [|t r IH]; intros i m Hm Hh; simpl; [exact Hm|]. apply IH.
   - apply group_one_from; [exact Hm|]. specialize (Hh 0 t eq_refl). rewrite Nat.add_0_r in Hh. exact Hh.
   - intros j u Hj. replace (S i + j) with (i + S j) by lia. apply Hh. exact Hj.
 Qed.
 
-Lemma remove_key_from S g m : from S m -> from S (remove_key g m).
-Proof. intros Hm g0 inner H. apply Hm. eapply remove_key_in; eauto. Qed.
+Lemma remove_key_from Q g m : from Q m -> from Q (remove_key g m).
+Proof. intros Hm g0 inner H p Hp. eapply Hm; [eapply remove_key_in; eauto|exact Hp]. Qed.
 
-Lemma process_prov_from S k nin nout : forall keys m g ids, imap_ok m -> from S m ->
+Lemma process_prov_from Q k nin nout : forall keys m g ids, imap_ok m -> from Q m ->
   In (g, ids) (process_prov k nin nout keys m) ->
-  exists inner, ids = group_ids inner /\ inner_ok g inner /\ length inner = nin /\ forall p, In p inner -> S p.
+  exists inner, ids = group_ids inner /\ inner_ok g inner /\ length inner = nin /\ forall p, In p inner -> Q p.
 Proof.
   induction keys as [|g0 r IH]; intros m g ids Hm Hf H; simpl in H; [destruct H|].
   destruct (lookup_key g0 m) as [inner|] eqn:L; [|eapply IH; eauto].
@@ -311,8 +311,8 @@ Proof.
   - eapply IH; [apply remove_key_ok; exact Hm|apply remove_key_from; exact Hf|exact H].
 Qed.
 
-Lemma process_tags_from S k nin nout : forall keys m acc m' o b, from S m ->
-  process_tags k nin nout keys m acc = (m', o, b) -> from S m'.
+Lemma process_tags_from Q k nin nout : forall keys m acc m' o b, from Q m ->
+  process_tags k nin nout keys m acc = (m', o, b) -> from Q m'.
 Proof.
   induction keys as [|g r IH]; intros m acc m' o b Hm H; simpl in H.
   - inversion H; subst. exact Hm.
@@ -323,27 +323,41 @@ Proof.
     + inversion H; subst. apply remove_key_from. exact Hm.
 Qed.
 
-Lemma round_state_from S k nin nout m heads : from S m ->
-  (forall j t, nth_error heads j = Some t -> S (j, t)) -> from S (round_state k nin nout m heads).
+Lemma round_state_from Q k nin nout m heads : from Q m ->
+  (forall j t, nth_error heads j = Some t -> Q (j, t)) -> from Q (round_state k nin nout m heads).
 Proof.
   intros Hm Hh. unfold round_state, tg_fire. destruct (existsb is_term heads); [exact Hm|].
   destruct (process_tags k nin nout (map fst (group_by_tag 0 heads m)) (group_by_tag 0 heads m) (repeat [] nout))
     as [[m2 o] b] eqn:P.
-  assert (from S m2) by (eapply process_tags_from; [apply group_by_tag_from; [exact Hm|exact Hh]|exact P]).
+  assert (from Q m2) by (eapply process_tags_from; [apply (group_by_tag_from Q heads 0); [exact Hm|intros j0 t0 Hj0; simpl; apply Hh; exact Hj0]|exact P]).
   destruct b; exact H.
 Qed.
 
-Theorem rounds_inputs_consumed k nin nout : forall rounds m g ids (S : nat * tok -> Prop),
-  imap_ok m -> from S m ->
-  (forall heads j t, In heads rounds -> nth_error heads j = Some t -> S (j, t)) ->
+Theorem rounds_inputs_consumed k nin nout : forall rounds m g ids (Q : nat * tok -> Prop),
+  imap_ok m -> from Q m ->
+  (forall heads j t, In heads rounds -> nth_error heads j = Some t -> Q (j, t)) ->
   In (g, ids) (rounds_prov k nin nout m rounds) ->
-  exists inner, ids = group_ids inner /\ inner_ok g inner /\ length inner = nin /\ forall p, In p inner -> S p.
+  exists inner, ids = group_ids inner /\ inner_ok g inner /\ length inner = nin /\ forall p, In p inner -> Q p.
 Proof.
-  induction rounds as [|h r IH]; intros m g ids S Hm Hf Hs H; simpl in H; [destruct H|].
-  assert (Hh : forall j t, nth_error h j = Some t -> S (j, t)) by (intros j t; apply Hs; left; reflexivity).
+  induction rounds as [|h r IH]; intros m g ids Q Hm Hf Hs H; simpl in H; [destruct H|].
+  assert (Hh : forall j t, nth_error h j = Some t -> Q (j, t)) by (intros j t; apply Hs; left; reflexivity).
   apply in_app_or in H. destruct H as [H|H].
   - unfold round_prov in H. destruct (existsb is_term h); [destruct H|].
-    eapply process_prov_from; [apply group_by_tag_ok; exact Hm|apply group_by_tag_from; [exact Hf|exact Hh]|exact H].
+    eapply process_prov_from; [apply group_by_tag_ok; exact Hm|apply (group_by_tag_from Q h 0); [exact Hf|intros j0 t0 Hj0; simpl; apply Hh; exact Hj0]|exact H].
   - eapply IH; [apply round_state_ok; exact Hm|apply round_state_from; [exact Hf|exact Hh]| |exact H].
     intros heads j t Hin. apply Hs. right. exact Hin.
 Qed.
+
+(* ================================================================== get_entity_ids *)
+Theorem get_entity_ids_spec : forall l i,
+  In i (get_entity_ids l) <-> (In (Some i) l /\ i <> 0%N).
+Proof.
+  intros l i. unfold get_entity_ids. rewrite in_flat_map. split.
+  - intros [x [Hx Hi]]. destruct x as [n|]; [|destruct Hi]. destruct (N.eqb n 0) eqn:E; [destruct Hi|].
+    destruct Hi as [<-|[]]. split; [exact Hx|apply N.eqb_neq; exact E].
+  - intros [Hx Hn]. exists (Some i). split; [exact Hx|]. apply N.eqb_neq in Hn. rewrite Hn. left. reflexivity.
+Qed.
+
+(* it is a filter: the order of the entities is kept, nothing is duplicated *)
+Theorem get_entity_ids_app : forall a b, get_entity_ids (a ++ b) = get_entity_ids a ++ get_entity_ids b.
+Proof. intros. unfold get_entity_ids. apply flat_map_app. Qed.
